@@ -57,15 +57,21 @@ func (kv *KeyValue) Flush() error {
 	kv.mu.Lock()
 	defer kv.mu.Unlock()
 	var (
-		bmback = kv.back.BeginBatch()
-		bmbuf  = kv.buf.BeginBatch()
-		commit = false
-		it     = kv.buf.Find("", "")
+		// The batches are created only once there is something to flush: a
+		// BeginBatch that is never committed would leak whatever the store
+		// holds for a batch (sqlkv: a transaction and its gate slot).
+		bmback, bmbuf sorted.BatchMutation
+		commit        = false
+		it            = kv.buf.Find("", "")
 	)
 	for it.Next() {
+		if !commit {
+			bmback = kv.back.BeginBatch()
+			bmbuf = kv.buf.BeginBatch()
+			commit = true
+		}
 		bmback.Set(it.Key(), it.Value())
 		bmbuf.Delete(it.Key())
-		commit = true
 	}
 	if err := it.Close(); err != nil {
 		return err
